@@ -6,6 +6,9 @@ void PolarGrid::RadialAnisotropicDivision(std::vector<double>& r_temp, const dou
 {
     // Calculate the percentage of refinement_radius.
     const double percentage = (refinement_radius - R0) / (R - R0);
+    if (!(percentage >= 0.0 && percentage < 1.0)) {
+        throw std::invalid_argument("The refinement radius of an anisotropic grid must lie in [R0, Rmax).");
+    }
     assert(percentage >= 0.0 && percentage <= 1.0);
 
     // 1) uniform division with nr=2^dummy_lognr - 2^aniso
@@ -44,6 +47,10 @@ void PolarGrid::RadialAnisotropicDivision(std::vector<double>& r_temp, const dou
 
     se     = floor(nr * percentage) - n_elems_refined / 2;
     int ee = se + n_elems_refined;
+    if (se < 0 || ee > nr) {
+        throw std::invalid_argument("The refinement radius is too close to the domain boundary for the chosen "
+                                    "anisotropic factor.");
+    }
     // takeout
     int st = ceil((double)n_elems_refined / 4.0 + 1) - 1;
     int et = floor(3 * ((double)n_elems_refined / 4.0));
